@@ -14,7 +14,10 @@ def posOf : String → Pos
 
 def handle (j : Json) : Json :=
   let lang := J.strD j "lang" "python"
-  let cfg : Cfg := { allowed := (J.arrD j "allowed").toList.map valOf, maxSmall := J.natD j "maxSmall" 10 }
+  -- literal sites are unsigned: a negative entry of allowed_numbers can never equal one and is dropped
+  -- (reading it with a natural-number default would turn -1 into 0)
+  let nonNeg := (J.arrD j "allowed").toList.filter fun a => match J.int a "m" with | .ok z => decide (0 ≤ z) | .error _ => false
+  let cfg : Cfg := { allowed := nonNeg.map valOf, maxSmall := J.natD j "maxSmall" 10 }
   let outs := (J.arrD j "sites").toList.map fun sj =>
     let s : Site := { pos := posOf (J.strD sj "pos" "plain"), value := valOf ((sj.getObjVal? "value").toOption.getD (Json.mkObj [])),
                       testFile := J.boolD sj "testFile" false, inTest := J.boolD sj "inTest" false,
